@@ -425,12 +425,23 @@ int abtv_pthread_mutex_unlock(pthread_mutex_t *m)
     SP('S', "pthread_mutex_unlock");
     return 0;
 }
+/* The monotonic clock and the real-time clock are different time lines, as on a real machine
+ * (seconds since boot against seconds since the epoch): here the monotonic clock starts
+ * MONO_BEHIND_NS behind.  A condition variable measures the deadline of a timed wait on the
+ * clock of its attribute (pthread_condattr_setclock); its memory is ours: int[1] holds it. */
+#define MONO_BEHIND_NS 999000000000000ULL
+static int is_mono(clockid_t c)
+{
+    return c == CLOCK_MONOTONIC || c == CLOCK_MONOTONIC_RAW || c == CLOCK_MONOTONIC_COARSE || c == CLOCK_BOOTTIME;
+}
 int abtv_pthread_cond_init(pthread_cond_t *c, const pthread_condattr_t *a)
 {
-    (void)a;
     if (alloc_should_fail(SIM_RES_PTHREAD_INIT))
         return ENOMEM;
     pobj_init(c, sizeof *c);
+    clockid_t clk = CLOCK_REALTIME;
+    if (a && pthread_condattr_getclock(a, &clk) == 0 && is_mono(clk))
+        ((int *)c)[1] = 1;
     return 0;
 }
 int abtv_pthread_cond_destroy(pthread_cond_t *c)
@@ -459,6 +470,8 @@ int abtv_pthread_cond_wait(pthread_cond_t *c, pthread_mutex_t *m)
 int abtv_pthread_cond_timedwait(pthread_cond_t *c, pthread_mutex_t *m, const struct timespec *ts)
 {
     uint64_t dl = (uint64_t)ts->tv_sec * 1000000000ULL + (uint64_t)ts->tv_nsec;
+    if (((int *)c)[1]) /* the deadline is a reading of the monotonic clock */
+        dl += MONO_BEHIND_NS;
     mu_unlock(m);
     int r;
     if (dl <= G.now) {
@@ -619,10 +632,10 @@ int abtv_nanosleep(const struct timespec *ts, struct timespec *rem)
 }
 int abtv_clock_gettime(clockid_t c, struct timespec *ts)
 {
-    (void)c;
     SP('T', "clock_gettime");
-    ts->tv_sec = (time_t)(G.now / 1000000000ULL);
-    ts->tv_nsec = (long)(G.now % 1000000000ULL);
+    uint64_t t = is_mono(c) ? G.now - MONO_BEHIND_NS : G.now;
+    ts->tv_sec = (time_t)(t / 1000000000ULL);
+    ts->tv_nsec = (long)(t % 1000000000ULL);
     return 0;
 }
 time_t abtv_time(time_t *t)
